@@ -181,6 +181,10 @@ def run(tier):
                 L.Bf3File.write_bf3_format(s, {}, bytes(b2))
                 ev = L.rec_read(rec, s.getvalue(), key, True, False, wd, _cost=max(1, n // 8))
                 large_ok += 1 if (at is None and ev["kind"] == "ok") else 0
+        # concurrent reads under one key
+        from .. import errpaths as E
+        if not os.environ.get("VERIF_ENVPASS"):
+            E.threaded_reads(rec, r, wd)
         # directories with 255 .. 300 entries: genuine, and with the last entry MAC'd under the index reduced modulo 256
         from .c14 import crafted_bf3
         nbig = 0
